@@ -8,6 +8,9 @@ fn main() {
     let code = match id.as_str() {
         "C01" => dispatch::<props::c01::C01>(&args, &verif),
         "C02" => dispatch::<props::c02::C02>(&args, &verif),
+        "C03" => dispatch::<props::c03::C03>(&args, &verif),
+        "C04" => dispatch::<props::c04::C04>(&args, &verif),
+        "C05" => dispatch::<props::c05::C05>(&args, &verif),
         "C06" => dispatch::<props::c06::C06>(&args, &verif),
         "C07" => dispatch::<props::c07::C07>(&args, &verif),
         "C08" => dispatch::<props::c08::C08>(&args, &verif),
